@@ -42,7 +42,8 @@ Broken    == {i \in Idx : i > 1 /\ Steps[i].step > 0 /\ Steps[i].pre # Steps[i -
 
 Describe(i) == LET e == Steps[i] IN
   [line |-> i, seq |-> e.seq, step |-> e.step, rc |-> e.rc,
-   diff |-> IF e.rc = 1 /\ IsView(e.fresh) THEN DiffFields(VJ(e.post), VJ(e.fresh)) ELSE <<>>]
+   diff |-> IF e.rc # 1 THEN <<>>
+            ELSE IF IsView(e.fresh) THEN DiffFields(VJ(e.post), VJ(e.fresh)) ELSE <<"fresh-replay-aborted">>]
 DescribeDiv(i) == LET e == Steps[i] o == Step(K, [chain |-> e.c, s |-> VJ(e.pre)], ReqOf(e)) IN
   [line |-> i, seq |-> e.seq, step |-> e.step, rc |-> e.rc, expected_resp |-> o.resp, why |-> o.why,
    diff |-> IF e.rc = 1 /\ o.resp = "ok" THEN DiffFields(o.st.s, VJ(e.post)) ELSE <<>>]
